@@ -242,7 +242,13 @@ func (s *sshProxyService) Handle(ctx context.Context, conn net.Conn) error {
 			}
 		}
 
-		go requestFn(requests, channel2)
+		// the client's requests end when it closes its channel (not when it
+		// merely ends its input)
+		requestsDone := make(chan struct{})
+		go func() {
+			requestFn(requests, channel2)
+			close(requestsDone)
+		}()
 
 		// the backend's requests (exit-status) end when it closes its channel
 		requests2Done := make(chan struct{})
@@ -266,6 +272,11 @@ func (s *sshProxyService) Handle(ctx context.Context, conn net.Conn) error {
 
 		go func() {
 			copyFn(channel2, wrappedChannel)
+
+			// the client ended its input: pass that on, the backend may still
+			// have output for it; close once the client closed its channel
+			channel2.CloseWrite()
+			<-requestsDone
 			channel2.Close()
 		}()
 
